@@ -286,7 +286,27 @@ class Run:
                     self.heads(), rb.height), self.w)
                 return
         head = self.nodes[0].lp.chain_manager.coinstate.current_chain_hash
-        t = world.make_rtx(head, rng, signer="ref")
+        early = getattr(self, "early_tx", None)
+        if early is not None:
+            t0, tall = early
+            led = world.ledger(head)
+            if not (ref.tx_codes_by_itself(t0) | ref.tx_codes_in_ledger(t0, led)) and tall.lp.network_manager.get_active_peers():
+                # still valid at the head all nodes share now: broadcast it again -- whoever refused it earlier must take it now
+                nb = len(self.relays)
+                tall.lp.network_manager.broadcast_transaction(bridge.rtx_to_real(t0))
+                del self.relays[nb:nb + 1]
+                c["early_transactions_broadcast_again"] = c.get("early_transactions_broadcast_again", 0) + 1
+                net.settle(None, fragment=rng.random() < 0.5, max_actions=4000)
+                self.check_escaped("relay of a transaction that was refused before convergence")
+                for n in self.nodes:
+                    pool = [x.hash() for x in n.lp.chain_manager.get_state()[1]]
+                    if t0.id() not in pool and (n is not tall):
+                        mon.v("broadcast-transaction-missing-from-a-pool", "%s: a valid transaction that was first broadcast before the "
+                              "nodes had converged (and refused then) is broadcast again once they share a head, and is still not in "
+                              "its pool" % n.name, self.w)
+                        break
+        exclude = set(early[0].refs()) if early is not None else set()
+        t = world.make_rtx(head, rng, signer="ref", exclude=exclude)
         if t is None:
             return
         real_t = bridge.rtx_to_real(t)
@@ -401,6 +421,23 @@ def one_run(mon, rng, world, per_node, desc, batch, quick):
         c["one_node_empty"] += 1
     if max(heights) - min(heights) > batch or max(desc["forks"]) > batch:
         c["multi_batch_syncs"] += 1
+    # in a third of the runs the tallest node broadcasts a transaction BEFORE the others have caught up (they must refuse
+    # it: it spends an output of a block they lack); the same transaction is broadcast again once all share a head
+    run.early_tx = None
+    if rng.random() < 0.35:
+        tall = max(run.nodes, key=lambda n: n.lp.chain_manager.coinstate.head().height)
+        hid = tall.lp.chain_manager.coinstate.current_chain_hash
+        cbid = world.chain.blocks[hid].txs[0].id()
+        own = [x for x in world.owned(hid, ()) if x[0][0] == cbid and x[1] > 1]
+        if own:
+            t0 = world.make_rtx(hid, rng, spend=own[:1], signer="ref")
+            if t0 is not None:
+                nb = len(run.relays)
+                tall.lp.network_manager.broadcast_transaction(bridge.rtx_to_real(t0))
+                tall.lp.chain_manager.add_transaction_to_pool(bridge.rtx_to_real(t0))
+                del run.relays[nb:nb + 1]
+                run.early_tx = (t0, tall)
+                c["transactions_broadcast_before_convergence"] = c.get("transactions_broadcast_before_convergence", 0) + 1
     run.phase1(rng.choice([0, 20, 100, 400]) if quick else rng.choice([0, 50, 300, 1500]))
     run.check_escaped("random phase")
     rounds = run.drain(sum(desc["forks"]) + desc["trunk"])
@@ -536,6 +573,7 @@ def finalize(m, tier):
                    ("relay_calls_recorded", c.get("relay_calls_recorded", 0), 300),
                    ("runs_with_all_nodes_on_one_host", c.get("runs_with_all_nodes_on_one_host", 0), 60),
                    ("runs_with_maximum_size_block", c.get("runs_with_maximum_size_block", 0), 4),
+                   ("early_transactions_broadcast_again", c.get("early_transactions_broadcast_again", 0), 30),
                    ("systematic_runs", c.get("systematic_runs", 0), 3 * 4 ** 4)],
         "extra": {"bounded_restatement_R_base": R_BASE},
     }
